@@ -127,7 +127,9 @@ fn semantic_nf(v: &RefValue) -> String {
 }
 
 pub fn canon_of_text(text: &str) -> Result<(Value, String), String> {
-	let (mut v, _) = Value::parse_str(text).map_err(|e| format!("parse_str rejected a generated document {text:?}: {e:?}"))?;
+	// the property quantifies over documents: a rewriting that cannot even be parsed has no canonical output, let alone
+	// one identical to its twin's (unlike C02/C05/C11, whose statements start from a successful parse)
+	let (mut v, _) = Value::parse_str(text).map_err(|e| format!("parse_str rejected a rewriting of the document, so it has no canonical output: {text:?}: {e:?}"))?;
 	v.canonicalize();
 	let s = v.compact_print().to_string();
 	Ok((v, s))
